@@ -16,6 +16,7 @@ type scanState struct {
 	st    *types.Struct
 	pos   int
 	done  bool
+	fragDone bool
 	cur   Str
 	err   Value
 }
@@ -84,6 +85,15 @@ func registerIO(e *Engine) {
 			return false
 		}
 		if sc.pos >= lines.len {
+			// a read error delivers the data read so far as a final token (ScanLines at EOF), then stops
+			if errV := rs[fieldIndex(sc.st, "err")].(Iface); errV.t != nil && !sc.fragDone {
+				sc.fragDone = true
+				if frag := rs[fieldIndex(sc.st, "frag")].(Str); !isEmptyConst(frag) {
+					sc.cur = frag
+					m.events = append(m.events, Event{Kind: "scan", Args: []Value{Num{c: int64(sc.pos)}}})
+					return true
+				}
+			}
 			sc.done = true
 			sc.err = rs[fieldIndex(sc.st, "err")]
 			return false
@@ -98,6 +108,41 @@ func registerIO(e *Engine) {
 	}
 	in["(*bufio.Scanner).Err"] = func(m *Machine, fr *frame, a []Value) Value {
 		return a[0].(*Opaque).data.(*scanState).err
+	}
+	// bufio.Reader over the harness' line reader: ReadString('\n') yields each line with its
+	// terminator; at the end the unterminated fragment (if any) together with the read error or io.EOF
+	in["bufio.NewReader"] = func(m *Machine, fr *frame, a []Value) Value {
+		r := a[0].(Iface)
+		src, st := m.lineSource(r)
+		return &Opaque{kind: "bufio.Reader", data: &scanState{src: src, st: st, err: Iface{}}}
+	}
+	in["bufio.NewReaderSize"] = func(m *Machine, fr *frame, a []Value) Value {
+		r := a[0].(Iface)
+		src, st := m.lineSource(r)
+		return &Opaque{kind: "bufio.Reader", data: &scanState{src: src, st: st, err: Iface{}}}
+	}
+	in["(*bufio.Reader).ReadString"] = func(m *Machine, fr *frame, a []Value) Value {
+		sc := a[0].(*Opaque).data.(*scanState)
+		d := a[1].(Num)
+		if d.t != nil || d.c != '\n' {
+			panic(abort("bufio.Reader.ReadString with a delimiter other than newline"))
+		}
+		rs := (*sc.src).(Struct)
+		lines := rs[fieldIndex(sc.st, "lines")].(Slice)
+		if sc.pos < lines.len {
+			l := (*lines.At(sc.pos)).(Str)
+			sc.pos++
+			return Tuple{strConcat(l, mkStr("\n")), Iface{}}
+		}
+		errV := rs[fieldIndex(sc.st, "err")].(Iface)
+		if errV.t == nil {
+			errV = m.ioEOF().(Iface)
+		}
+		if !sc.fragDone {
+			sc.fragDone = true
+			return Tuple{rs[fieldIndex(sc.st, "frag")].(Str), errV}
+		}
+		return Tuple{Str{}, errV}
 	}
 	in["compress/gzip.NewReader"] = func(m *Machine, fr *frame, a []Value) Value {
 		r := a[0].(Iface)
@@ -176,3 +221,8 @@ func registerBar(e *Engine) {
 }
 
 func init() { extraHarness = append(extraHarness, registerBar) }
+
+func isEmptyConst(s Str) bool {
+	c, ok := s.Const()
+	return ok && c == ""
+}
